@@ -7,7 +7,8 @@ pid = sys.argv[1]
 ROUND2 = "--round2" in sys.argv
 ROUND3 = "--round3" in sys.argv
 ROUND4 = "--round4" in sys.argv
-wt = ("/tmp/ref4-%s" if ROUND4 else "/tmp/ref3-%s" if ROUND3 else "/tmp/ref2-%s" if ROUND2 else "/tmp/ref-%s") % pid
+ROUND5 = "--round5" in sys.argv
+wt = ("/tmp/ref5-%s" if ROUND5 else "/tmp/ref4-%s" if ROUND4 else "/tmp/ref3-%s" if ROUND3 else "/tmp/ref2-%s" if ROUND2 else "/tmp/ref-%s") % pid
 env = dict(os.environ, CARGO_TARGET_DIR=wt + "/target", CARGO_NET_OFFLINE="true")
 
 
@@ -18,7 +19,7 @@ def sh(cmd, **kw):
 
 for sd in sorted(glob.glob(os.path.join(wt, "ref[0-9]"))):
     k = sd[-1]
-    out = "/verif/%s/%s-%s" % ("benign4" if ROUND4 else "benign3" if ROUND3 else "benign2" if ROUND2 else "benign", pid, k)
+    out = "/verif/%s/%s-%s" % ("benign5" if ROUND5 else "benign4" if ROUND4 else "benign3" if ROUND3 else "benign2" if ROUND2 else "benign", pid, k)
     res = {}
     sh("git checkout -- . ; git clean -fdq -e 'ref*' -e target")
     rc, o = sh("git apply %s/patch.diff" % sd)
